@@ -307,3 +307,247 @@ def check_sympy_value(w, rep):
         ns._cse = None
     rep.floor(R, 20)
     return all_ok
+
+
+# ------------------------------------------------------------------------------------------------------------------
+# CasADi -> sympy: casadi_to_sympy run on stand-ins for SX nodes; what it returns is rendered as source text and looked
+# up in the same semantic table (c19.OPS) the idiom rule uses - however the operands are plumbed (nested closures,
+# module-level helpers bound with functools.partial, operator.add instead of a lambda, a shared Piecewise helper).
+
+class SymNode(NativeModel):
+    """Stand-in for a sympy expression under construction; records how it was built."""
+
+    def __init__(self, text, atom=False):
+        self.text = text if atom else "(%s)" % text
+
+    @staticmethod
+    def of(v):
+        if isinstance(v, SymNode):
+            return v.text
+        if isinstance(v, bool) or v is None:
+            return repr(v)
+        if isinstance(v, Fraction):
+            return repr(v.numerator) if v.denominator == 1 else "(%d / %d)" % (v.numerator, v.denominator) if Fraction(float(v)) != v else repr(float(v))
+        if isinstance(v, (int, float)):
+            return repr(v)
+        if isinstance(v, (tuple, list)):
+            return "(%s%s)" % (", ".join(SymNode.of(x) for x in v), "," if len(v) == 1 else "")
+        if isinstance(v, str):
+            return repr(v)
+        raise Unsupported("sympy stand-in: cannot render %r" % (v,))
+
+    def _b(self, op, o, rev=False):
+        a, b = (SymNode.of(o), self.text) if rev else (self.text, SymNode.of(o))
+        return SymNode("%s %s %s" % (a, op, b))
+
+    def __add__(self, o): return self._b("+", o)
+    def __radd__(self, o): return self._b("+", o, True)
+    def __sub__(self, o): return self._b("-", o)
+    def __rsub__(self, o): return self._b("-", o, True)
+    def __mul__(self, o): return self._b("*", o)
+    def __rmul__(self, o): return self._b("*", o, True)
+    def __truediv__(self, o): return self._b("/", o)
+    def __rtruediv__(self, o): return self._b("/", o, True)
+    def __pow__(self, o): return self._b("**", o)
+    def __rpow__(self, o): return self._b("**", o, True)
+    def __mod__(self, o): return self._b("%", o)
+    def __rmod__(self, o): return self._b("%", o, True)
+    def __and__(self, o): return self._b("&", o)
+    def __or__(self, o): return self._b("|", o)
+    def __lt__(self, o): return self._b("<", o)
+    def __le__(self, o): return self._b("<=", o)
+    def __gt__(self, o): return self._b("<", o, True)      # a > b is b < a (one spelling, as the idiom rule's canoniser)
+    def __ge__(self, o): return self._b("<=", o, True)
+    def __neg__(self): return SymNode("-%s" % self.text)
+    def __pos__(self): return self
+    def __invert__(self): return SymNode("~%s" % self.text)
+    def __abs__(self): return SymNode("sympy.Abs(%s)" % self.text, True)
+    __hash__ = object.__hash__
+
+    def __repr__(self):
+        return self.text
+
+
+class MatOut(NativeModel):
+    def __init__(self, m, n):
+        self.shape = (m, n)
+        self.entries = {}
+
+    def __setitem__(self, k, v):
+        self.entries[tuple(int(x) for x in k)] = v
+
+    def __getitem__(self, k):
+        return self.entries[tuple(k)]
+
+
+class _SympyOut(NativeModel):
+    def __init__(self, prefix="sympy"):
+        self._p = prefix
+
+    def __getattr__(self, k):
+        if k.startswith("__"):
+            raise AttributeError(k)
+        if k in ("zeros", "Matrix") and self._p == "sympy":
+            return (lambda m, n=None: MatOut(m, n if n is not None else m)) if k == "zeros" else (lambda *a: (_ for _ in ()).throw(Unsupported("sympy.Matrix in the stand-in")))
+        if k in ("S", "core", "functions"):
+            return _SympyOut(self._p + "." + k)
+        if k in ("Half", "One", "Zero", "NegativeOne", "pi", "E", "oo", "true", "false"):
+            return SymNode("%s.%s" % (self._p, k), True)
+        name = "%s.%s" % (self._p, k)
+        return lambda *a, **kw: SymNode("%s(%s)" % (name, ", ".join([SymNode.of(x) for x in a] + ["%s=%s" % (q, SymNode.of(v)) for q, v in kw.items()])), True)
+
+
+class ExprNode(NativeModel):
+    CODES = {}
+
+    def __init__(self, opname, deps=(), value=None, name="", shape=(1, 1), elems=None):
+        self.opname, self.deps, self.value, self._name, self.shape, self.elems = opname, tuple(deps), value, name, shape, elems
+
+    @classmethod
+    def code(cls, opname):
+        return cls.CODES.setdefault(opname, 1000 + len(cls.CODES))
+
+    def op(self): return ExprNode.code(self.opname)
+    def dep(self, i=0): return self.deps[int(i)]
+    def n_dep(self): return len(self.deps)
+    def numel(self): return self.shape[0] * self.shape[1]
+    def size1(self): return self.shape[0]
+    def size2(self): return self.shape[1]
+    def rows(self): return self.shape[0]
+    def columns(self): return self.shape[1]
+    def elements(self): return list(self.elems) if self.elems is not None else [self]
+    def nonzeros(self): return self.elements()
+    def is_symbolic(self): return self.opname == "OP_PARAMETER"
+    def is_constant(self): return self.opname == "OP_CONST"
+    def is_scalar(self): return self.numel() == 1
+    def is_leaf(self): return not self.deps
+    def name(self): return self._name
+    def __float__(self): return float(self.value)
+    def __int__(self): return int(self.value)
+    def __str__(self): return self._name or self.opname
+    def __repr__(self): return "SX(%s)" % (self._name or self.opname)
+    __hash__ = object.__hash__
+
+    def __getitem__(self, k):
+        if self.elems is None:
+            return self
+        if isinstance(k, tuple):
+            return self.elems[int(k[0]) + self.shape[0] * int(k[1])]
+        return self.elems[int(k)]
+
+
+class _CaOps(NativeModel):
+    def __getattr__(self, k):
+        if k.startswith("OP_"):
+            return ExprNode.code(k)
+        if k.startswith("__"):
+            raise AttributeError(k)
+        raise Unsupported("ca.%s in casadi_to_sympy is not modelled by the stand-in" % k)
+
+
+def check_casadi_value(w, rep, OPS, verdict_fn, cx):
+    """-> True when every opcode was decided and none failed."""
+    R = "C19.value"
+    it = w.it
+    sf = w.fe.get(REL)
+    fn = w.fe.find_def(REL, "casadi_to_sympy")
+    W = (REL, fn.lineno)
+    env = Env({"__name__": "cyecca.symbolic", "__file__": sf.path})
+    env.is_module = True
+    env["ca"] = _CaOps()
+    env["sympy"] = _SympyOut()
+    try:
+        for st in sf.tree.body:
+            if isinstance(st, ast.FunctionDef):
+                it.exec_stmt(st, env, "cyecca.symbolic")
+            elif isinstance(st, (ast.Import, ast.ImportFrom)):
+                mods = [a.name.split(".")[0] for a in st.names] if isinstance(st, ast.Import) else [(st.module or "").split(".")[0]]
+                if all(m in ("functools", "operator", "itertools", "math", "collections", "typing") for m in mods):
+                    it.exec_stmt(st, env, "cyecca.symbolic")
+            elif isinstance(st, (ast.Assign, ast.AnnAssign, ast.ClassDef)) and not any(isinstance(c_, ast.Call) and ast.unparse(c_.func).startswith("derive_series") for c_ in ast.walk(st)):
+                try:
+                    it.exec_stmt(st, env, "cyecca.symbolic")
+                except (InterpRaise, Unsupported):
+                    pass
+    except (InterpRaise, Unsupported) as ex:
+        rep.incomplete(R, "casadi_to_sympy", "cannot load the converter: %s" % ex, where=W)
+        return False
+    conv = env["casadi_to_sympy"]
+    # opcodes the source mentions
+    named = sorted({x.attr for x in ast.walk(sf.tree) if isinstance(x, ast.Attribute) and x.attr.startswith("OP_") and isinstance(x.value, ast.Name) and x.value.id == "ca"})
+    all_ok = True
+    n_conv = n_ref = 0
+    for opname in named:
+        if opname in ("OP_CONST", "OP_PARAMETER"):
+            continue
+        p0, p1 = ExprNode("OP_PARAMETER", name="_0"), ExprNode("OP_PARAMETER", name="_1")
+        syms = {p0: SymNode("_0", True), p1: SymNode("_1", True)}
+        node = ExprNode(opname, (p0, p1))
+        inst = "casadi_to_sympy(%s(_0, _1))" % opname
+        try:
+            res = it.call(conv, [node, syms], {}, fn)
+        except InterpRaise as ex:
+            if ex.kind == "NotImplementedError":
+                n_ref += 1
+                continue
+            all_ok = False
+            rep.fail(R, inst, "raises %s instead of converting or refusing with NotImplementedError" % ex, where=W)
+            continue
+        except Unsupported as ex:
+            all_ok = False
+            rep.incomplete(R, inst, "cannot interpret the converter on this opcode: %s" % ex, where=W)
+            continue
+        n_conv += 1
+        if opname not in OPS:
+            all_ok = False
+            rep.incomplete(R, inst, "the opcode is converted but the semantic table has no row for it", where=W)
+            continue
+        try:
+            expr = ast.parse(SymNode.of(res), mode="eval").body
+        except (SyntaxError, Unsupported) as ex:
+            all_ok = False
+            rep.incomplete(R, inst, "cannot read back the constructed expression: %s" % ex, where=W)
+            continue
+        before = len(rep.obs)
+        verdict_fn(cx, R, inst, OPS[opname], expr, fn)
+        if any(o.status != "ok" for o in rep.obs[before:]):
+            all_ok = False
+    rep.note("C19.value: casadi_to_sympy converts %d opcodes and refuses %d of the %d it names" % (n_conv, n_ref, len(named)))
+    # numeric constants: the value must come back exactly (an integer-valued constant may come back as int)
+    for val in (2.5, -2.5, 3.0, -4.0, 0.0, 1e-12, -0.75, 4000000000.5, 1e300):
+        inst = "casadi_to_sympy(constant %r) returns that number" % val
+        try:
+            res = it.call(conv, [ExprNode("OP_CONST", value=val), {}], {}, fn)
+            num = float(res) if isinstance(res, (int, float, Fraction)) and not isinstance(res, bool) else None
+            good = num is not None and num == val
+            rep.check(R, inst, good, "the constant comes back as %r: the value is not preserved" % (res,), where=W)
+            all_ok &= good
+        except (InterpRaise, Unsupported) as ex:
+            all_ok = False
+            (rep.fail if isinstance(ex, InterpRaise) else rep.incomplete)(R, inst, "%s" % ex, where=W)
+    # symbols: created once, looked up afterwards, the caller's table is the one that is filled
+    inst = "casadi_to_sympy(symbol) creates the sympy symbol once and returns the stored object afterwards"
+    try:
+        p = ExprNode("OP_PARAMETER", name="q")
+        table = {}
+        r1 = it.call(conv, [p, table], {}, fn)
+        r2 = it.call(conv, [ExprNode("OP_ADD", (p, p)), table], {}, fn)
+        good = p in table and table[p] is r1 and isinstance(r1, SymNode) and "'q'" in r1.text and isinstance(r2, SymNode) and r2.text.count(r1.text) == 2
+        rep.check(R, inst, good, "symbol table %r, first %r, then %r" % (table, r1, r2), where=W)
+        all_ok &= good
+    except (InterpRaise, Unsupported) as ex:
+        all_ok = False
+        (rep.fail if isinstance(ex, InterpRaise) else rep.incomplete)(R, inst, "%s" % ex, where=W)
+    # matrices: element (i, j) of the result is the translation of element i + rows * j (column-major) of the argument
+    inst = "casadi_to_sympy(2x3 matrix): entry (i, j) is the translation of element i + 2 j"
+    try:
+        els = [ExprNode("OP_PARAMETER", name="e%d" % k) for k in range(6)]
+        syms = {e: SymNode("e%d" % k, True) for k, e in enumerate(els)}
+        M = it.call(conv, [ExprNode("OP_VERTCAT", shape=(2, 3), elems=els), syms], {}, fn)
+        good = isinstance(M, MatOut) and M.shape == (2, 3) and all(M.entries.get((i, j)) is syms[els[i + 2 * j]] for i in range(2) for j in range(3))
+        rep.check(R, inst, good, "the matrix comes back as %s" % (getattr(M, "entries", M),), where=W)
+        all_ok &= good
+    except (InterpRaise, Unsupported) as ex:
+        all_ok = False
+        (rep.fail if isinstance(ex, InterpRaise) else rep.incomplete)(R, inst, "%s" % ex, where=W)
+    return all_ok
